@@ -98,7 +98,7 @@ func init() {
 			"(12 verbs + Println, 12 Context verbs, LogAttrs, Logit, Log with 10 log/slog levels, Infof/Warnf/Errorf, Verbose x2, and the package-level twins). A cell = one call; oracle: (bytes reached any recording writer) == admit(L, r, debug) and Enabled/EnabledContext == admit. " +
 			"Every call that takes a context is given, in turn, a live one, one with values, a cancelled one and one whose deadline has passed; registries also hold values that do not fit 32 bits. " +
 			"overlap: 17-96 goroutines issue one call each on one logger (and a child of it) while every earlier admitted call is still held inside the destination's Write; the number of Writes must equal the number of calls the rule admits, each admitted id exactly once. " +
-			"Round 14: two debug-mode histories install a state holder of the application's own (states.UpdateEnvWith) first; a logger kind 'WithSkip helper of an owner that was switched Off'; every third custom level has a two-character title in another script. non-trivial = every executed cell; distinct = by (kind, entry, L, r, history)",
+			"Round 14: two debug-mode histories install a state holder of the application's own (states.UpdateEnvWith) first; a logger kind 'WithSkip helper of an owner that was switched Off'; every third custom level has a two-character title in another script. non-trivial = every executed cell; distinct = by (kind, entry, L, r, history) Round 16: in every sixth registry each destination of some loggers stores its first record and reports a wrapped os.ErrClosed for it (a log file in rotation); the table is judged on what arrives afterwards.",
 		Assumptions: []string{"OK/Success count as Info and Fail as Error when gated (the library's documented built-in treat-as table)", "SetLevel(Debug) on the logger under test itself switches debug mode on (modelled)", "LnoInterrupt is set in the child so that Panic/Fatal severities can be issued"},
 		Floors:      map[string]int64{"cells": 5000, "records_emitted": 1000, "calls_silent": 1000, "overlap_calls_admitted": 300},
 		Exhaustive:  func(string) bool { return true },
@@ -176,7 +176,7 @@ func init() {
 		Level: "exploration",
 		Race:  true,
 		Rule: "one case = one probe call (WriteThru with explicit timestamp and frame; format x 15 severities incl. registered fg-only / fg+bg / no colour and unregistered; groups, errors, multi-line messages, caller on/off, long values) formatted once by a fresh context (pool flushed with two GC cycles) and then again after each of 6 generated histories of 1-20 other records " +
-			"(other formats, levels with background colours or none, sizes, other loggers, other goroutines, interleaved GC); GOMAXPROCS=1 so the pooled context is deterministically reused, which a marshaller spy confirms per execution. Oracle: byte equality. Round 12 (chdir): between history and probe the process may apply TZ (local-time mode, an instant in another zone), empty the known-path table or remove its home entry (the frame lies under the $HOME the process was started with). Round 13 (sharedhandler): one log/slog handler family (0-3 WithGroup / WithAttrs steps) shared by 2-16 goroutines, each replaying a hand-built record of its own; every payload equals the quiet payload of the record it carries; also under the race detector. Round 14: probes that carry an application-owned self-resolving attribute (LogValuer), a fresh object of which is formatted for another logger's record first; verb probes whose first normal destination is a closed NewFileWriter file. non-trivial = probe compared after all histories; distinct = by probe bytes. chdir: the reference is ANOTHER process - two processes started alike go chdir(A), chdir(B), probe (caller information on, frame in the library or the harness, privacy flag on/off); one of them logged in A (a caller record, one on a goroutine, several, one without caller info); payloads equal. parallel: 3-33 goroutines, each with a logger, destination and WriteThru call of its own, replay their call 150-1500 times at once (also under the race detector); every replay equals the payload obtained while the process was quiet",
+			"(other formats, levels with background colours or none, sizes, other loggers, other goroutines, interleaved GC); GOMAXPROCS=1 so the pooled context is deterministically reused, which a marshaller spy confirms per execution. Oracle: byte equality. Round 12 (chdir): between history and probe the process may apply TZ (local-time mode, an instant in another zone), empty the known-path table or remove its home entry (the frame lies under the $HOME the process was started with). Round 13 (sharedhandler): one log/slog handler family (0-3 WithGroup / WithAttrs steps) shared by 2-16 goroutines, each replaying a hand-built record of its own; every payload equals the quiet payload of the record it carries; also under the race detector. Round 14: probes that carry an application-owned self-resolving attribute (LogValuer), a fresh object of which is formatted for another logger's record first; verb probes whose first normal destination is a closed NewFileWriter file. non-trivial = probe compared after all histories; distinct = by probe bytes. chdir: the reference is ANOTHER process - two processes started alike go chdir(A), chdir(B), probe (caller information on, frame in the library or the harness, privacy flag on/off); one of them logged in A (a caller record, one on a goroutine, several, one without caller info); payloads equal. parallel: 3-33 goroutines, each with a logger, destination and WriteThru call of its own, replay their call 150-1500 times at once (also under the race detector); every replay equals the payload obtained while the process was quiet Round 16: a third of the slice-passing probes carry map values (five and four keys): the bytes are the same in every replay.",
 		Assumptions: []string{"two runtime.GC() cycles empty sync.Pool (victim cache), giving a fresh formatting context for the reference"},
 		Floors:      map[string]int64{"probe_executions": 500, "reuse_of_pooled_context_confirmed": 100, "reuse_after_a_different_class_of_record": 50, "probe_pairs_compared": 30, "parallel_replays": 20000, "shared_handler_replays": 5000},
 		Jobs: func(tier string, seed int64) []Job {
@@ -231,7 +231,7 @@ func init() {
 		Prop:  "C11",
 		Level: "exploration",
 		Rule: "exh: ALL sequences up to the length bound over (call x target logger): quick = 42 calls x 3 loggers, length <= 2 (16003 sequences); thorough = length <= 3 over 42 calls (2016379) ; calls = SetJSONMode/SetColorMode with 0, 1 or 2 boolean arguments, WithJSONMode/WithColorMode variants, New(..) on a logger with the mode options (with a name, with an empty name, without a name, behind another option, two mode options in a row) and two calls that are NOT mode calls and leave the format alone (the destination replaced by a real *os.File and back; records to a destination that fails; the colours of the probe severities taken away with SetLevelColors; SetLevel/SetAttrs/SetTimeFormat), WithSkip(1) (one child per count: a repeat hands out the existing child unchanged), NewSlogHandler with JSON / NoColor options (applies them once) and a record through the handler built earlier (not a mode call), children made by With / WithAttrs / WithAttrs1 (no mode call: the parent's format), slog.Reset() while the logger is the process's default logger (no mode call), mode calls handed an empty non-nil list of booleans (= no argument), New(name, attributes..., mode option), a line with < and & through a std log bridge on the logger (no mode call), New(name, WithJSONMode(false,true)) / New(name, WithColorMode(true,false)) (the last boolean is the mode); every fifth probe carries Level-valued attributes; one probe in six is a call with a blank message and no arguments; " +
-			"targets = root, child, grandchild of a fresh tree. rand: random sequences of 4-15 calls, in a production process, under go test (where every other probe carries an error value whose dump is part of the record) and in production processes started with NO_COLOR / TERM=dumb / FORCE_COLOR style environments. After EVERY call, for EVERY logger of the tree (incl. the children created on the way): JSONMode()/ColorMode() == the modelled three-state machine and a probe record classifies ({ / ESC / time=) as that state. non-trivial = every completed sequence; distinct = by sequence",
+			"targets = root, child, grandchild of a fresh tree. rand: random sequences of 4-15 calls, in a production process, under go test (where every other probe carries an error value whose dump is part of the record) and in production processes started with NO_COLOR / TERM=dumb / FORCE_COLOR style environments. After EVERY call, for EVERY logger of the tree (incl. the children created on the way): JSONMode()/ColorMode() == the modelled three-state machine and a probe record classifies ({ / ESC / time=) as that state. non-trivial = every completed sequence; distinct = by sequence Round 16: the random sequences also run in a production and in a go-test process whose command line carries an argument starting with -bench.",
 		Assumptions: []string{"a call without arguments means true, with several the last wins (as documented)"},
 		Floors:      map[string]int64{"probes_classified": 5000},
 		Exhaustive:  func(string) bool { return true },
@@ -323,7 +323,7 @@ func init() {
 		Variants: []string{"verbose"},
 		Rule: "the complete matrix {113 call sites (4 of them the Verbose entry points, which print only in a build of the library with its tag verbose: their 216 cells are run by a build variant of the workload; one with an attribute named caller; 3 of them printf verbs with %w / several verbs / none; 3 in files whose names hold quotation marks, backslashes or letters outside ASCII; 17 at chosen line numbers 1, 9|10|11, 99|100|101 ... 65535|65536, 10^6 through //line directives; the line-number flag is cleared for every third cell): 30 native verbs/Context verbs/LogAttrs/Logit/Log/printf verbs, 24 package-level functions, 5 Println forms whose first argument is not a string (native and package-level), 6 application-side facades whose type/package names collide with library or std names (applog.(*Logger).Infof/Warnf/Println over the std log bridge, a facade package named slog with a type Entry and a method logContext over the native API; the record is attributed skip minus facade depth frames above the call statement), 5 sites that also log an error carrying its own stack trace (errors.v3), 9 log/slog adapter forms (Logger.Info/WarnContext/Log/LogAttrs, With(..).Info, slog.Info after SetDefault, Log / LogAttrs at the library's own log/slog levels LevelFatal and LevelPanic and at an application level above Error), one helper kept in another source file and inlined into the calling statement (its record belongs to the helper's file, with skip 1 to the caller's), 4 std log bridge forms (Print/Printf/Println/Output)} x {json, logfmt, color} x {skip 0..4 set by WithSkip or SetSkip, with a wrapper chain of matching depth} x " +
 			"{root held as Logger interface, root as *Entry, child | default logger for package functions} x {inlinable, noinline wrappers; direct chains and closure chains}. Each call site is a one-line function literal that also records its own logical call stack (runtime.CallersFrames) and is executed TWICE in a row (a second record from the same statement must be attributed like the first); a WithSkip child is used only after a sibling with another skip count was derived from the same parent; " +
-			"the caller decoded from the record (file made absolute, line, function) must equal the frame `skip` logical frames above the call statement. conc: 2-16 goroutines log 300-1500 records each at the same time, each from a function of its own; every record names the function of its own call site. thorough additionally builds the workload with -gcflags=all=-l. Round 13: the matrix once more in processes whose working directory was removed; every seventh cell makes its logger with another logger (skip count 3) as an attribute value. non-trivial = confirmed attribution; distinct = by cell Every cell issues its record three times: as is, after WithSkip(n) was evaluated again for the same count, and through a child derived from the logger that carries the skip count (attributed to the statement itself: a skip count is not inherited); every 50th cell first issues records from 320 other call sites. The whole matrix is run a second time in processes whose FIRST log/slog handler record came from a wrapping helper (own runtime.Callers, NewRecord, Handler().Handle); a third of the bridge cells first recover a panic through a second bridge built on a decorating logger.",
+			"the caller decoded from the record (file made absolute, line, function) must equal the frame `skip` logical frames above the call statement. conc: 2-16 goroutines log 300-1500 records each at the same time, each from a function of its own; every record names the function of its own call site. thorough additionally builds the workload with -gcflags=all=-l. Round 13: the matrix once more in processes whose working directory was removed; every seventh cell makes its logger with another logger (skip count 3) as an attribute value. non-trivial = confirmed attribution; distinct = by cell Every cell issues its record three times: as is, after WithSkip(n) was evaluated again for the same count, and through a child derived from the logger that carries the skip count (attributed to the statement itself: a skip count is not inherited); every 50th cell first issues records from 320 other call sites. The whole matrix is run a second time in processes whose FIRST log/slog handler record came from a wrapping helper (own runtime.Callers, NewRecord, Handler().Handle); a third of the bridge cells first recover a panic through a second bridge built on a decorating logger. Round 16: a row for Log with a log/slog level that has no name (Info+1); half of the child cells give the parent a skip count of its own before the bridge or adapter is built on the child.",
 		Assumptions: []string{"runtime.CallersFrames over a 16-slot Callers buffer gives the true logical stack at the call site", "privacy path flags are off so that the reported file can be compared (C18 covers them)"},
 		Floors:      map[string]int64{"attributions_confirmed": 1000},
 		Exhaustive:  func(string) bool { return true },
@@ -369,7 +369,7 @@ func init() {
 		Prop:  "C16",
 		Level: "exploration",
 		Rule: "cases = (instant: year 1-9999, every sub-second pattern, 6 fixed offsets incl. odd minutes + 5 named zones from the embedded tzdata; all 8 date/time/microseconds flag combinations x LlocalTime on/off; UTC mode unset / false / true; no logger layout or one of 14 custom layouts; json/logfmt/color) logged through WriteThru with that instant; " +
-			"the timestamp text is extracted from the record and must equal instant.In(zone).Format(layout) with zone = UTC iff UTC mode or (unset and LlocalTime clear), layout = the logger's, else the documented table for the flags (any exported layout for the two combinations the table does not list); layouts with full date, time and numeric zone must parse back to the instant truncated to the layout's precision. Round 12: a fifth of the unset-mode cases go through a WithJSONMode / WithColorMode child of a parent that has a layout and a zone mode of its own. Round 13: the package's own layouts pinned explicitly and layouts ending in a literal Z joined the layout list. Round 14: SetUTCMode with several values (the last one is the mode). non-trivial = matched timestamp; distinct = by (text, layout, format)",
+			"the timestamp text is extracted from the record and must equal instant.In(zone).Format(layout) with zone = UTC iff UTC mode or (unset and LlocalTime clear), layout = the logger's, else the documented table for the flags (any exported layout for the two combinations the table does not list); layouts with full date, time and numeric zone must parse back to the instant truncated to the layout's precision. Round 12: a fifth of the unset-mode cases go through a WithJSONMode / WithColorMode child of a parent that has a layout and a zone mode of its own. Round 13: the package's own layouts pinned explicitly and layouts ending in a literal Z joined the layout list. Round 14: SetUTCMode with several values (the last one is the mode). non-trivial = matched timestamp; distinct = by (text, layout, format) Round 16: the zone pool holds fixed zones that are called UTC, Local or nothing while hours away from UTC; every eighth record has a blank message at OK, Success, Fail, Warn or Info (timestamp read from the head of the record).",
 		Assumptions: []string{"Go's time.Format/time.Parse (go1.23.5) as the reference for layouts", "SetTimeFormat given several layouts: the last non-empty one is the logger's layout (how the variadic setter is written)"},
 		Floors:      map[string]int64{"timestamps_extracted": 1000, "parsed_back": 100},
 		Jobs: func(tier string, seed int64) []Job {
@@ -424,7 +424,7 @@ func init() {
 		Prop:  "C19",
 		Level: "exploration",
 		Rule: "one case = one operation sequence (1-300 of the 20 listed operations) executed in lock-step on a PrintCtx and on a bytes.Buffer (go1.23.5) from the same start state (zero value, NewPrintCtx with a pre-filled slice of chosen len/cap, NewPrintCtxString, NewPrintCtx(nil)); argument sizes around 0, 1, 63-65, 511-513, 1023-1025, current length +-1, free capacity +-1, negative, 70000 and astronomical (>= 2^62, must panic without allocating); " +
-			"ReadFrom readers scripted to return data, zero, a negative count, an error or data+EOF; WriteTo writers that short-write, fail, over-report. After EVERY step: returned values / slice contents, error (text compared after replacing the type name), panic (both or neither, same text), Len() and String() must be identical. non-trivial = completed sequence; distinct = by start state and sequence",
+			"ReadFrom readers scripted to return data, zero, a negative count, an error or data+EOF; WriteTo writers that short-write, fail, over-report. After EVERY step: returned values / slice contents, error (text compared after replacing the type name), panic (both or neither, same text), Len() and String() must be identical. non-trivial = completed sequence; distinct = by start state and sequence Round 16: every eighth ReadFrom is handed io.TeeReader(payload, the buffer itself).",
 		Assumptions: []string{"bytes.Buffer of the toolchain that builds the workload (go1.23.5) is the reference", "error and panic texts are compared after replacing 'bytes.Buffer' / 'logg/slog.PrintCtx' by a common token"},
 		Floors:      map[string]int64{"ops_executed": 50000, "ops_that_panicked_in_both": 50},
 		Jobs: func(tier string, seed int64) []Job {
